@@ -362,7 +362,9 @@ def finish_args(ctx):
              "checker on the code's own results for every enumerated (variant, block, order): transposition, ground-state shift, "
              "MVP prefactors; block truncation table for ADC(0..5) against the closed form.  (2) every enumerated block, both "
              "subtract_gs flavours (False: orders 0-1), evaluated at sampled bra/ket assignments in random canonical-HF "
-             "determinant-space models against <I|H-E0|J> over explicitly constructed intermediate states",
+             "determinant-space models against <I|H-E0|J> over explicitly constructed intermediate states.  (3) assembly: lowest-class "
+             "block of pp / ip / ea at orders 0-2 (thorough: + coupling blocks to first order) against sum N(k) (<I~(a)|H(b)|J~(c)> - "
+             "E(b) <I~(a)|J~(c)>) evaluated by the Lean Wick model from the code's operator-level intermediate states",
         trusted_base=["Lean 4.33 kernel", "axioms propext/Classical.choice/Quot.sound", "AdcProofs/Sem.lean", "python exporter",
                       "harness/isr_oracle.py (explicit ISR construction as power series: normalised ground state, precursor states, "
                       "Gram-Schmidt against lower classes, symmetric orthonormalisation; self-tested for orthonormality)",
